@@ -16,4 +16,5 @@ const (
 	ptRouteOpts               // NewRoute, route options applied, handler chain not built yet
 	ptBeforeUnlock            // before a lock is released
 	ptBeforeStore             // before an atomic store
+	ptTryLock                 // before a non-blocking lock attempt
 )
